@@ -694,9 +694,31 @@ def variant_state_at_exits(F, body, ref_local, adt, variants):
     du = DefUse(body)
     allv = frozenset(variants)
 
+    def aliases_ref(l, depth=10):
+        """local l holds (a copy / reborrow of) the reference ref_local - also through the parameter of an inlined helper"""
+        for _ in range(depth):
+            if l == ref_local:
+                return True
+            d = du.single_def(l)
+            if d is None or d[1] == 't' or d[2]['k'] != 'assign':
+                return False
+            rv = d[2]['rv']
+            if rv['k'] == 'use' and operand_place(rv['o']) is not None:
+                pl = operand_place(rv['o'])
+            elif rv['k'] == 'ref':
+                pl = rv['pl']
+            else:
+                return False
+            if [e for e in (pl.get('p') or []) if e != '*']:
+                return False
+            l = pl['l']
+        return False
+
     def is_ref_place(p):
-        p = du.deref_origin(p)
-        return p['l'] == ref_local and (p.get('p') or []) == ['*']
+        q = du.deref_origin(p)
+        if q['l'] == ref_local and (q.get('p') or []) == ['*']:
+            return True
+        return (p.get('p') or []) == ['*'] and aliases_ref(p['l'])
 
     def agg_variant(operand):
         org = du.origin(operand)
@@ -727,8 +749,8 @@ def variant_state_at_exits(F, body, ref_local, adt, variants):
             hit = False
             if target is not None:
                 tp = du.deref_origin(target)
-                hit = tp['l'] == ref_local
-            if operand_local(a0) == ref_local:
+                hit = tp['l'] == ref_local or aliases_ref(target['l'])
+            if operand_local(a0) is not None and aliases_ref(operand_local(a0)):
                 hit = True
             if hit:
                 v = agg_variant(t['a'][1]) if len(t['a']) > 1 else None
